@@ -44,6 +44,8 @@ type Anchors struct {
 	Validate, Unmarshal, SetupNodeGroups, NewController *ssa.Function
 	BuildState, NewClient                               *ssa.Function
 	SafeFromDeletion                                    *ssa.Function
+	ValidLifecycle, ValidEffect, ValidMaxAge, Unwrap    *ssa.Function
+	IsStarve, IsMaxAge                                  *ssa.Function
 	// k8s
 	AddTaint, DelTaint, GetTaint, GetForceTaint, GetTime *ssa.Function
 	NodeEmpty, PodsRemaining, CreateInfoMap, DeleteNode  *ssa.Function
@@ -57,6 +59,8 @@ type Anchors struct {
 	TController, TState, TScaleOpts, TOptions, TAWSOptions, TLock, TOpts *types.Named
 	IfaceNodeGroup, IfaceCloudProvider                                   *types.Named
 	TNotInGroup                                                          *types.Named
+
+	fieldRoles map[string]*types.Var
 
 	W []Site // external writes
 	R []Site // external reads on the same interfaces
@@ -85,6 +89,22 @@ func (a *Anchors) named(pkg, name string) *types.Named {
 	return n
 }
 
+// namedLike: the named type pkg.name, or — when an unexported type was renamed — what alt finds.
+func (a *Anchors) namedLike(pkg, name string, alt func() *types.Named) *types.Named {
+	if pk := a.p.ByPath[pkg]; pk != nil {
+		if obj := pk.Types.Scope().Lookup(name); obj != nil {
+			if n, ok := obj.Type().(*types.Named); ok {
+				return n
+			}
+		}
+	}
+	if n := alt(); n != nil {
+		return n
+	}
+	a.errf("type %s.%s not found", pkg, name)
+	return nil
+}
+
 func (a *Anchors) fn(pkg, name string) *ssa.Function {
 	sp := a.p.SSAPkg[pkg]
 	if sp == nil {
@@ -97,6 +117,103 @@ func (a *Anchors) fn(pkg, name string) *ssa.Function {
 		return nil
 	}
 	return f
+}
+
+// fnLike finds pkg.name; when the name is gone (an unexported function was renamed) it falls back
+// on the unique function of the package that satisfies like — anchors are roles, not spellings.
+func (a *Anchors) fnLike(pkg, name string, like func(*ssa.Function) bool) *ssa.Function {
+	sp := a.p.SSAPkg[pkg]
+	if sp == nil {
+		a.errf("package %s not loaded", pkg)
+		return nil
+	}
+	if f := sp.Func(name); f != nil && f.Blocks != nil {
+		return f
+	}
+	var found *ssa.Function
+	for _, f := range a.p.Funcs {
+		if f.Pkg != sp || f.Parent() != nil || f.Signature.Recv() != nil || f.Synthetic != "" {
+			continue
+		}
+		if like(f) {
+			if found != nil {
+				a.errf("function %s.%s not found and its role is ambiguous (%s, %s)", pkg, name, funcID(found), funcID(f))
+				return nil
+			}
+			found = f
+		}
+	}
+	if found == nil {
+		a.errf("function %s.%s not found", pkg, name)
+	}
+	return found
+}
+
+// methodLike: as fnLike for a method of t.
+func (a *Anchors) methodLike(t *types.Named, name string, like func(*ssa.Function) bool) *ssa.Function {
+	if t == nil {
+		return nil
+	}
+	for _, typ := range []types.Type{types.NewPointer(t), t} {
+		sel := a.p.SSA.MethodSets.MethodSet(typ).Lookup(t.Obj().Pkg(), name)
+		if sel != nil {
+			if obj, ok := sel.Obj().(*types.Func); ok {
+				if f := a.p.SSA.FuncValue(obj); f != nil && f.Blocks != nil {
+					return f
+				}
+			}
+		}
+	}
+	var found *ssa.Function
+	for _, f := range a.p.Funcs {
+		if f.Signature.Recv() == nil || f.Parent() != nil || f.Synthetic != "" {
+			continue
+		}
+		rt := f.Signature.Recv().Type()
+		if pt, ok := rt.(*types.Pointer); ok {
+			rt = pt.Elem()
+		}
+		if !types.Identical(rt, t) || !like(f) {
+			continue
+		}
+		if found != nil {
+			a.errf("method %s.%s not found and its role is ambiguous", t.Obj().Name(), name)
+			return nil
+		}
+		found = f
+	}
+	if found == nil {
+		a.errf("method %s.%s not found", t.Obj().Name(), name)
+	}
+	return found
+}
+
+// sigIs: parameter (without receiver) and result types by their printed type-name suffixes.
+func sigIs(f *ssa.Function, params []string, results []string) bool {
+	sg := f.Signature
+	if sg.Params().Len() != len(params) || sg.Results().Len() != len(results) {
+		return false
+	}
+	for i, p := range params {
+		if !strings.HasSuffix(sg.Params().At(i).Type().String(), p) {
+			return false
+		}
+	}
+	for i, r := range results {
+		if !strings.HasSuffix(sg.Results().At(i).Type().String(), r) {
+			return false
+		}
+	}
+	return true
+}
+
+func (a *Anchors) callsExternal(f *ssa.Function, pkgPath, name string) bool {
+	for _, ci := range callsIn(f, nil) {
+		if g := ci.Common().StaticCallee(); g != nil && pkgPathOfFn(g) == pkgPath && g.Name() == name {
+			return true
+		}
+	}
+	return false
 }
 
 func (a *Anchors) method(t *types.Named, name string) *ssa.Function {
@@ -117,7 +234,9 @@ func (a *Anchors) method(t *types.Named, name string) *ssa.Function {
 	return nil
 }
 
-// field returns the *types.Var of a struct field by name.
+// field returns the *types.Var of a struct field by name. For the unexported fields of the
+// controller's own structures the name is only the preferred spelling: when it is gone (a field was
+// renamed) the field is found by its role — its type, or what the code stores into it.
 func field(t *types.Named, name string) *types.Var {
 	if t == nil {
 		return nil
@@ -131,7 +250,158 @@ func field(t *types.Named, name string) *types.Var {
 			return st.Field(i)
 		}
 	}
+	if curAnchors != nil {
+		return curAnchors.fieldByRole(t, st, name)
+	}
 	return nil
+}
+
+var curAnchors *Anchors
+
+func (a *Anchors) fieldByRole(t *types.Named, st *types.Struct, name string) *types.Var {
+	key := t.Obj().Name() + "." + name
+	if f, ok := a.fieldRoles[key]; ok {
+		return f
+	}
+	if a.fieldRoles == nil {
+		a.fieldRoles = map[string]*types.Var{}
+	}
+	a.fieldRoles[key] = nil // guards against recursion
+	byType := func(pred func(types.Type) bool, exclude ...*types.Var) *types.Var {
+		var found *types.Var
+		for i := 0; i < st.NumFields(); i++ {
+			f := st.Field(i)
+			skip := false
+			for _, e := range exclude {
+				if e == f {
+					skip = true
+				}
+			}
+			if skip || !pred(f.Type()) {
+				continue
+			}
+			if found != nil {
+				return nil
+			}
+			found = f
+		}
+		return found
+	}
+	typeStr := func(s string) func(types.Type) bool {
+		return func(x types.Type) bool { return x.String() == s || strings.HasSuffix(x.String(), s) }
+	}
+	// the fields of the given slice / quantity type, distinguished by what is stored into them
+	storedFrom := func(pred func(types.Type) bool, valuePred func(fn *ssa.Function, v ssa.Value) bool) *types.Var {
+		var found *types.Var
+		for i := 0; i < st.NumFields(); i++ {
+			f := st.Field(i)
+			if !pred(f.Type()) {
+				continue
+			}
+			hit := false
+			for _, fn := range a.p.Funcs {
+				for _, b := range fn.Blocks {
+					for _, in := range b.Instrs {
+						if s, ok := in.(*ssa.Store); ok && fieldOfAddr(s.Addr) == f && valuePred(fn, s.Val) {
+							hit = true
+						}
+					}
+				}
+			}
+			if hit {
+				if found != nil && found != f {
+					return nil
+				}
+				found = f
+			}
+		}
+		return found
+	}
+	isStrings := typeStr("[]string")
+	isNodes := func(x types.Type) bool { return strings.HasSuffix(x.String(), "[]*k8s.io/api/core/v1.Node") }
+	isQty := func(x types.Type) bool { return isQuantity(x) }
+	callsFn := func(fn *ssa.Function, target *ssa.Function) bool {
+		return target != nil && (fn == target || len(callsTo(fn, target)) > 0 || a.p.reachCut([]*ssa.Function{fn}, nil)[target])
+	}
+	var f *types.Var
+	switch {
+	case t == a.TState:
+		switch name {
+		case "scaleUpLock":
+			f = byType(func(x types.Type) bool { return a.TLock != nil && types.Identical(x, a.TLock) })
+		case "NodeInfoMap":
+			f = byType(func(x types.Type) bool { return strings.HasSuffix(x.String(), "k8s.NodeInfo") && strings.HasPrefix(x.String(), "map[") })
+		case "lastScaleOut":
+			f = byType(typeStr("time.Time"))
+		case "scaleDelta":
+			f = byType(func(x types.Type) bool { return x.String() == "int" })
+		case "taintTracker":
+			f = storedFrom(isStrings, func(fn *ssa.Function, _ ssa.Value) bool { return callsFn(fn, a.AddTaint) })
+		case "forceTaintTracker":
+			if tt := field(t, "taintTracker"); tt != nil {
+				f = byType(isStrings, tt)
+			}
+		case "cpuCapacity", "memCapacity":
+			want := map[string]string{"cpuCapacity": "ResourceList).Cpu", "memCapacity": "ResourceList).Memory"}[name]
+			f = storedFrom(isQty, func(fn *ssa.Function, v ssa.Value) bool {
+				if ld, ok := v.(*ssa.UnOp); ok {
+					if c, ok := ld.X.(*ssa.Call); ok {
+						if g := c.Common().StaticCallee(); g != nil {
+							return strings.HasSuffix(g.String(), want)
+						}
+					}
+				}
+				return false
+			})
+		}
+	case t == a.TLock:
+		switch name {
+		case "isLocked":
+			f = byType(func(x types.Type) bool { return x.String() == "bool" })
+		case "lockTime":
+			f = byType(typeStr("time.Time"))
+		case "minimumLockDuration":
+			f = byType(typeStr("time.Duration"))
+		case "requestedNodes":
+			f = byType(func(x types.Type) bool { return x.String() == "int" })
+		}
+	case t == a.TScaleOpts:
+		switch name {
+		case "nodeGroup":
+			f = byType(func(x types.Type) bool { return a.isPtrTo(x, a.TState) })
+		case "nodesDelta":
+			f = byType(func(x types.Type) bool { return x.String() == "int" })
+		case "untaintedNodes", "taintedNodes", "forceTaintedNodes":
+			// by what the scan body puts there: result 0 / 1 / 2 of the classifier
+			want := map[string]int{"untaintedNodes": 0, "taintedNodes": 1, "forceTaintedNodes": 2}[name]
+			f = storedFrom(isNodes, func(fn *ssa.Function, v ssa.Value) bool {
+				ex, ok := v.(*ssa.Extract)
+				if !ok || ex.Index != want {
+					return false
+				}
+				c, ok := ex.Tuple.(*ssa.Call)
+				return ok && a.Filter != nil && c.Common().StaticCallee() == a.Filter
+			})
+		case "nodes":
+			f = storedFrom(isNodes, func(fn *ssa.Function, v ssa.Value) bool {
+				ex, ok := v.(*ssa.Extract)
+				if !ok || ex.Index != 0 {
+					return false
+				}
+				c, ok := ex.Tuple.(*ssa.Call)
+				return ok && c.Common().IsInvoke() && c.Common().Method.Name() == "List"
+			})
+		}
+	case t == a.TController:
+		switch name {
+		case "nodeGroups":
+			f = byType(func(x types.Type) bool { return strings.HasPrefix(x.String(), "map[string]*") && strings.HasSuffix(x.String(), "."+a.TState.Obj().Name()) })
+		case "cloudProvider":
+			f = byType(func(x types.Type) bool { return a.IfaceCloudProvider != nil && types.Identical(x, a.IfaceCloudProvider) })
+		}
+	}
+	a.fieldRoles[key] = f
+	return f
 }
 
 // fieldByJSON returns the field whose json tag name is tag (the documented option name).
@@ -174,16 +444,46 @@ var anchorCache = map[*Prog]*Anchors{}
 
 func resolveAnchors(p *Prog) *Anchors {
 	if a, ok := anchorCache[p]; ok {
+		curAnchors = a
 		return a
 	}
 	a := &Anchors{p: p}
 	anchorCache[p] = a
+	curAnchors = a
 	a.TController = a.named(pkgController, "Controller")
 	a.TState = a.named(pkgController, "NodeGroupState")
-	a.TScaleOpts = a.named(pkgController, "scaleOpts")
+	a.TScaleOpts = a.namedLike(pkgController, "scaleOpts", func() *types.Named {
+		// the options structure ScaleUp takes
+		if f := a.method(a.TController, "ScaleUp"); f != nil && f.Signature.Params().Len() == 1 {
+			n, _ := f.Signature.Params().At(0).Type().(*types.Named)
+			return n
+		}
+		return nil
+	})
 	a.TOptions = a.named(pkgController, "NodeGroupOptions")
 	a.TAWSOptions = a.named(pkgController, "AWSNodeGroupOptions")
-	a.TLock = a.named(pkgController, "scaleLock")
+	a.TLock = a.namedLike(pkgController, "scaleLock", func() *types.Named {
+		// the field of the group state that is a struct with a bool, a time.Time and a time.Duration
+		st, _ := a.TState.Underlying().(*types.Struct)
+		for i := 0; st != nil && i < st.NumFields(); i++ {
+			n, ok := st.Field(i).Type().(*types.Named)
+			if !ok {
+				continue
+			}
+			ls, ok := n.Underlying().(*types.Struct)
+			if !ok {
+				continue
+			}
+			has := map[string]bool{}
+			for j := 0; j < ls.NumFields(); j++ {
+				has[ls.Field(j).Type().String()] = true
+			}
+			if has["bool"] && has["time.Time"] && has["time.Duration"] {
+				return n
+			}
+		}
+		return nil
+	})
 	a.TOpts = a.named(pkgController, "Opts")
 	a.IfaceNodeGroup = a.named(pkgCloud, "NodeGroup")
 	a.IfaceCloudProvider = a.named(pkgCloud, "CloudProvider")
@@ -194,18 +494,68 @@ func resolveAnchors(p *Prog) *Anchors {
 	a.DryMode = a.dryModeMethod()
 	a.ScaleUp = a.method(a.TController, "ScaleUp")
 	a.ScaleDown = a.method(a.TController, "ScaleDown")
-	a.Lock = a.method(a.TLock, "lock")
-	a.Unlock = a.method(a.TLock, "unlock")
-	a.Locked = a.method(a.TLock, "locked")
-	a.CalcDelta = a.fn(pkgController, "calcScaleUpDelta")
-	a.CalcPercent = a.fn(pkgController, "calcPercentUsage")
+	storesBool := func(f *ssa.Function, val string) bool {
+		for _, b := range f.Blocks {
+			for _, in := range b.Instrs {
+				if st, ok := in.(*ssa.Store); ok {
+					if k, ok := st.Val.(*ssa.Const); ok && k.Value != nil && k.Value.String() == val && isBool(k.Type()) {
+						return true
+					}
+				}
+			}
+		}
+		return false
+	}
+	a.Lock = a.methodLike(a.TLock, "lock", func(f *ssa.Function) bool {
+		return f.Signature.Params().Len() == 1 && f.Signature.Results().Len() == 0 && storesBool(f, "true")
+	})
+	a.Unlock = a.methodLike(a.TLock, "unlock", func(f *ssa.Function) bool {
+		return f.Signature.Params().Len() == 0 && f.Signature.Results().Len() == 0 && storesBool(f, "false")
+	})
+	a.Locked = a.methodLike(a.TLock, "locked", func(f *ssa.Function) bool {
+		return f.Signature.Params().Len() == 0 && f.Signature.Results().Len() == 1 && isBool(f.Signature.Results().At(0).Type())
+	})
+	a.CalcDelta = a.fnLike(pkgController, "calcScaleUpDelta", func(f *ssa.Function) bool {
+		return f.Signature.Results().Len() == 2 && isInteger(f.Signature.Results().At(0).Type()) && isErrorType(f.Signature.Results().At(1).Type()) &&
+			len(paramsOfKind(f, isFloat64)) == 2 && len(paramsOfKind(f, isQuantity)) == 2
+	})
+	a.CalcPercent = a.fnLike(pkgController, "calcPercentUsage", func(f *ssa.Function) bool {
+		r := f.Signature.Results()
+		return r.Len() == 3 && isFloat64(r.At(0).Type()) && isFloat64(r.At(1).Type()) && isErrorType(r.At(2).Type()) && len(paramsOfKind(f, isQuantity)) == 4
+	})
 	a.Validate = a.fn(pkgController, "ValidateNodeGroup")
 	a.Unmarshal = a.fn(pkgController, "UnmarshalNodeGroupOptions")
 	a.NewController = a.fn(pkgController, "NewController")
 	a.BuildState = a.fn(pkgController, "BuildNodeGroupsState")
 	a.NewClient = a.fn(pkgController, "NewClient")
-	a.SetupNodeGroups = a.fn(pkgCmd, "setupNodeGroups")
-	a.SafeFromDeletion = a.fn(pkgController, "safeFromDeletion")
+	a.SetupNodeGroups = a.fnLike(pkgCmd, "setupNodeGroups", func(f *ssa.Function) bool {
+		return a.Unmarshal != nil && len(callsTo(f, a.Unmarshal)) > 0
+	})
+	a.SafeFromDeletion = a.fnLike(pkgController, "safeFromDeletion", func(f *ssa.Function) bool {
+		return sigIs(f, []string{"v1.Node"}, []string{"string", "bool"})
+	})
+	a.ValidEffect = a.fnLike(pkgController, "validTaintEffect", func(f *ssa.Function) bool {
+		return sigIs(f, []string{"TaintEffect"}, []string{"bool"})
+	})
+	a.ValidMaxAge = a.fnLike(pkgController, "validMaxNodeAgeDuration", func(f *ssa.Function) bool {
+		return sigIs(f, []string{"string"}, []string{"bool"}) && a.callsExternal(f, "time", "ParseDuration")
+	})
+	a.ValidLifecycle = a.fnLike(pkgController, "validAWSLifecycle", func(f *ssa.Function) bool {
+		return sigIs(f, []string{"string"}, []string{"bool"}) && !a.callsExternal(f, "time", "ParseDuration") && a.Validate != nil && len(callsTo(a.Validate, f)) > 0
+	})
+	a.Unwrap = a.fnLike(pkgController, "unwrapNodeSelectorTerms", func(f *ssa.Function) bool {
+		return sigIs(f, []string{"v1.Pod"}, []string{"[]k8s.io/api/core/v1.NodeSelectorTerm"})
+	})
+	readsOption := func(f *ssa.Function, tag string) bool {
+		fld := fieldByJSON(a.TOptions, tag)
+		return fld != nil && a.p.readFields[f][fld]
+	}
+	a.IsStarve = a.methodLike(a.TController, "isScaleOnStarve", func(f *ssa.Function) bool {
+		return f.Signature.Results().Len() == 1 && isBool(f.Signature.Results().At(0).Type()) && readsOption(f, "scale_on_starve")
+	})
+	a.IsMaxAge = a.methodLike(a.TController, "scaleOnMaxNodeAge", func(f *ssa.Function) bool {
+		return f.Signature.Results().Len() == 1 && isBool(f.Signature.Results().At(0).Type()) && readsOption(f, "max_node_age") && !readsOption(f, "scale_on_starve")
+	})
 	a.AddTaint = a.fn(pkgK8s, "AddToBeRemovedTaint")
 	a.DelTaint = a.fn(pkgK8s, "DeleteToBeRemovedTaint")
 	a.GetTaint = a.fn(pkgK8s, "GetToBeRemovedTaint")
@@ -356,9 +706,17 @@ func resolveAnchors(p *Prog) *Anchors {
 		}
 	}
 	if sp := p.SSAPkg[pkgAWS]; sp != nil {
-		a.AwsCreateFleetInput = sp.Func("createFleetInput")
-		a.AwsProviderIDToInstanceID = sp.Func("providerIDToInstanceID")
-		a.AwsInstToProv = sp.Func("instanceToProviderID")
+		_ = sp
+		a.AwsCreateFleetInput = a.fnLike(pkgAWS, "createFleetInput", func(f *ssa.Function) bool {
+			r := f.Signature.Results()
+			return r.Len() == 2 && strings.HasSuffix(r.At(0).Type().String(), "ec2.CreateFleetInput")
+		})
+		a.AwsProviderIDToInstanceID = a.fnLike(pkgAWS, "providerIDToInstanceID", func(f *ssa.Function) bool {
+			return sigIs(f, []string{"string"}, []string{"string"}) && a.callsExternal(f, "strings", "Split")
+		})
+		a.AwsInstToProv = a.fnLike(pkgAWS, "instanceToProviderID", func(f *ssa.Function) bool {
+			return sigIs(f, []string{"autoscaling.Instance"}, []string{"string"})
+		})
 	}
 	return a
 }
